@@ -24,6 +24,8 @@ Sensitivity (quick tier, scratch copies; all caught):
   serving loop hanging after an application exception (_QuietException) ; _on_connection_close not resolving _finish_future.
   Seeded: need_delegate_close cleared when the request is fully read although finish() was skipped (delegate answered
   early) -> caught after adding delegates that respond in headers_received/data_received (neither_finish_nor_close).
+  Seeded (round 7): httpserver._ProxyAdapter.on_connection_close calling delegate.finish() -> missed until xheaders=True
+  became a generated server option (both_finish_and_close / finish_with_incomplete_body).
   Seeded (round 6): the `not self.stream.closed()` guard before `await self._finish_future` narrowed to the client role ->
   missed until the "shutdown" fault existed (server closed while data_received is held, application never answers:
   close_all_connections_never_completes).
@@ -83,7 +85,10 @@ def case_s(draw):
     reject = draw(st.sampled_from(["none", "none", "none", "none", "body_over_limit", "bad_chunk"]))
     # the body timeout comes from the server configuration or is installed per request by the delegate
     timeout_via = draw(st.sampled_from(["server", "request"]))
-    return dict(raise_in=raise_in, reject=reject, timeout_via=timeout_via, framing=framing, body=body, chunks=chunks, layer=layer, hdr_async=hdr_async, data_async=data_async,
+    # non-default server configuration: xheaders=True wraps every request delegate in the proxy adapter, which has to
+    # forward finish / on_connection_close faithfully
+    xheaders = draw(st.booleans())
+    return dict(xheaders=xheaders, raise_in=raise_in, reject=reject, timeout_via=timeout_via, framing=framing, body=body, chunks=chunks, layer=layer, hdr_async=hdr_async, data_async=data_async,
                 respond=respond, where=where, frac=frac, event=event, segs=segs, write_credit=write_credit,
                 resp_size=resp_size, chunk_size=chunk_size, cut=None)
 
@@ -276,6 +281,8 @@ def run_scenario(case):
             kw["body_timeout"] = 5.0
         if case["chunk_size"]:
             kw["chunk_size"] = case["chunk_size"]
+        if case.get("xheaders"):
+            kw["xheaders"] = True
         if case.get("reject") == "body_over_limit" and case["body"]:
             kw["max_body_size"] = max(0, len(case["body"]) - 1 - (case["frac"] % 3))
         sess = ServerSession(Conn(), **kw)
@@ -338,6 +345,8 @@ def run_case(ctx, case):
             "write_credit": case["write_credit"],
             "records": [(r["headers"], len(b"".join(r["chunks"])), r["finish"], r["close"], r["order"]) for r in st_["records"]]}
     labels = {"layer:" + case["layer"], "event:" + case["event"]}
+    if case.get("xheaders"):
+        labels.add("xheaders_proxy_adapter")
     started = [r for r in st_["records"] if r["headers"]]
     for r in st_["records"]:
         if r["headers"] > 1:
@@ -429,9 +438,13 @@ def offsets_cases(n_requests):
         dict(framing="cl", body=b"y" * 300, chunks=[1]),
     ][:n_requests]
     for b in bases:
-        for layer in ("raw", "web_stream", "web_async"):
+        for layer in ("raw", "web_stream", "web_async", "raw+xheaders"):
             for hold in ("sync", "hold"):
-                base = dict(b, layer=layer, hdr_async=hold, data_async=hold, respond="immediate", where="any", frac=0,
+                xh = layer.endswith("+xheaders")
+                layer = layer.split("+")[0]
+                if xh and hold == "hold":
+                    continue
+                base = dict(b, xheaders=xh, layer=layer, hdr_async=hold, data_async=hold, respond="immediate", where="any", frac=0,
                             segs=[7], write_credit=None, resp_size=10, chunk_size=16)
                 head, payload = build_request(base)
                 for cut in range(0, len(head) + len(payload) + 1):
